@@ -80,6 +80,8 @@ type Goroutine struct {
 	sleeping bool
 	name    string
 	frames  int
+	spinCh  *Chan // busy-loop detection: the closed channel this goroutine keeps receiving from
+	spin    int
 }
 
 type lockState struct {
